@@ -11,6 +11,11 @@ for f in [path] + sys.argv[1:]:
         m = pat.match(l.rstrip('\n'))
         if m:
             res[(m.group(1), m.group(2))] = l.rstrip('\n')
+import json
+for k in list(res):
+    mp = os.path.join(V, 'seeded', k[0], 'meta.json')
+    if os.path.exists(mp) and json.load(open(mp)).get('superseded'):
+        del res[k]            # no longer a property-breaking change (meta.json says why): not part of the expectation
 with open(path, 'w') as fh:
     for k in sorted(res):
         fh.write(res[k] + '\n')
